@@ -83,6 +83,14 @@ func c14Apply(op byte, k, a, b int64) (int64, bool) {
 
 // c14Bin builds a binary term, folding constants (no other algebraic rewriting).
 func c14Bin(op byte, k int64, a, b *c14T) *c14T {
+	if op == '*' && a.op == '*' { // k·(j·a) = (k·j)·a over ℤ
+		if kj, ok := c14MulOK(k, a.k); ok {
+			k, a = kj, a.a
+		}
+	}
+	if op == '*' && k == 1 {
+		return a
+	}
 	if a.op == 'k' && (b == nil || b.op == 'k') {
 		bv := int64(0)
 		if b != nil {
@@ -349,48 +357,63 @@ func (fs c14Facts) contradictory() bool {
 // implies. Rule I: facts ⊢ φ when facts ∧ ¬φ is contradictory (rule C).
 func (fs c14Facts) implies(f c14F) bool { return fs.with(f.neg()).contradictory() }
 
-// le proves t ≤ x + k for a variable x:
+// le proves t ≤ c·x + k for a variable x and a constant coefficient c ≥ 1:
 //
-//	L-refl   x ≤ x+k            if k ≥ 0
-//	L-sub    a-c ≤ x+k          if a ≤ x+(k+c)      (c constant)
-//	L-add    a+c ≤ x+k          if a ≤ x+(k-c)      (c constant, either operand)
+//	L-refl   x ≤ c·x+k          if k ≥ 0 and (c = 1 or lo x ≥ 0)
+//	L-sub    a-d ≤ c·x+k        if a ≤ c·x+(k+d)    (d constant)
+//	L-add    a+d ≤ c·x+k        if a ≤ c·x+(k-d)    (d constant, either operand)
+//	L-mul    j·a ≤ c·x+k        if j > 0, j | c and a ≤ (c/j)·x + ⌊k/j⌋   (then j·a ≤ c·x + j⌊k/j⌋ ≤ c·x + k)
 //	L-min    min(a,b) ≤ u       if a ≤ u or b ≤ u
 //	L-max    max(a,b) ≤ u       if a ≤ u and b ≤ u
-//	L-const  t ≤ x+k            if hi t ≤ lo x + k   (rule B bounds)
-func (fs c14Facts) le(t *c14T, x int64, k int64) bool {
+//	L-const  t ≤ c·x+k          if hi t ≤ c·lo x + k   (rule B bounds)
+func (fs c14Facts) le(t *c14T, c, x, k int64) bool {
+	if c < 1 {
+		return false
+	}
+	lox, haveLo := fs.varBound(x, false)
 	switch t.op {
 	case 'v':
-		if t.k == x && k >= 0 {
+		if t.k == x && k >= 0 && (c == 1 || (haveLo && lox >= 0)) {
 			return true
 		}
 	case '-':
 		if t.b.op == 'k' {
-			if k2, ok := c14AddOK(k, t.b.k); ok && fs.le(t.a, x, k2) {
+			if k2, ok := c14AddOK(k, t.b.k); ok && fs.le(t.a, c, x, k2) {
 				return true
 			}
 		}
 	case '+':
 		for _, p := range [][2]*c14T{{t.a, t.b}, {t.b, t.a}} {
 			if p[1].op == 'k' {
-				if k2, ok := c14Apply('-', 0, k, p[1].k); ok && fs.le(p[0], x, k2) {
+				if k2, ok := c14Apply('-', 0, k, p[1].k); ok && fs.le(p[0], c, x, k2) {
 					return true
 				}
 			}
 		}
+	case '*':
+		if j := t.k; j > 0 && c%j == 0 {
+			q := k / j
+			if k%j != 0 && k < 0 {
+				q-- // floor division
+			}
+			if fs.le(t.a, c/j, x, q) {
+				return true
+			}
+		}
 	case 'n':
-		if fs.le(t.a, x, k) || fs.le(t.b, x, k) {
+		if fs.le(t.a, c, x, k) || fs.le(t.b, c, x, k) {
 			return true
 		}
 	case 'x':
-		if fs.le(t.a, x, k) && fs.le(t.b, x, k) {
+		if fs.le(t.a, c, x, k) && fs.le(t.b, c, x, k) {
 			return true
 		}
 	}
-	hi, ok1 := fs.bound(t, true)
-	lo, ok2 := fs.varBound(x, false)
-	if ok1 && ok2 {
-		if s, ok := c14AddOK(lo, k); ok && hi <= s {
-			return true
+	if hi, ok := fs.bound(t, true); ok && haveLo {
+		if cl, ok := c14MulOK(c, lox); ok {
+			if sum, ok := c14AddOK(cl, k); ok && hi <= sum {
+				return true
+			}
 		}
 	}
 	return false
@@ -909,13 +932,15 @@ type c14W struct {
 	colour  [2]int64 // values of chess.White, chess.Black
 	margin  int64
 	rolesOK bool
+	ms      int64 // time.Millisecond in time.Duration units
 }
 
 // site: a value k·f(tc, stm) found at a consumer (timer / soft-time option).
 type c14Site struct {
 	at   ssa.CallInstruction
 	name string
-	unit int64
+	unit int64 // constant factor applied at the call site
+	S    int64 // units per millisecond the consumer expects
 	root c14Root
 	err  string
 }
@@ -1124,8 +1149,9 @@ func init() {
 		Explain: "Static conditions for 'the hard deadline is positive, never later than the mover's remaining time, keeps the safety margin, equals movetime when given, and depends only on the mover's own clock'. " +
 			"The functions analysed are whatever handleGo wires into time.NewTimer (hard deadline) and search.WithSoftTime (soft target); the meaning of the struct fields is taken from the UCI token switch (R4), not from names. " +
 			"R1: all paths of the deadline function (callees and Clamp's min/max inlined from SSA) are enumerated under each domain precondition (White to move / Black to move with own clock ≥ 1 and no movetime; movetime ≥ 1), strengthened by the tc/stm conditions guarding the call site, and a fixed set of monotonicity rules proves result ≥ 1, result ≤ remaining, remaining > margin ⇒ result ≤ remaining − margin, result = movetime, and absence of int64 overflow incl. the conversion to nanoseconds; an unprovable goal is 'undecided' unless a boundary-grid evaluation of the derived term yields a concrete counterexample (then 'violation'). " +
-			"R2: after merging paths that differ only in irrelevant tests, no field carried by an opponent's UCI token is mentioned on a colour's paths (syntactic dependence). " +
-			"R3: every timer in handleGo is time.NewTimer(Millisecond · deadline(tc, stm)) with stm loaded once from d.board.STM, the conditions on tc/stm guarding it are proved to hold on the whole domain (the timer is really armed; otherwise undecided, with a grid input on which the guard is false), its channel is a select case whose body leaves the goroutine, whose deferred close releases the stop channel given to the search; WithSoftTime receives soft(tc, stm) under a guard that holds for movetime. " +
+			"R2: after merging paths that differ only in irrelevant tests, no field carried by an opponent's UCI token is mentioned on a colour's paths; a mention is a violation only with two grid inputs that differ in that field alone and give different deadlines, otherwise undecided. " +
+			"The value checked is the one the consumer receives, in the consumer's unit (time.Millisecond per ms for a timer, 1 for WithSoftTime), so a unit conversion may sit at the call site or inside a helper. " +
+			"R3: every timer in handleGo is time.NewTimer(k · f(tc, stm)) with stm loaded once from d.board.STM (directly or through an accessor), the conditions on tc/stm guarding it are proved to hold on the whole domain (the timer is really armed; otherwise undecided, with a grid input on which the guard is false), its channel is a select case whose body leaves the goroutine, whose deferred close releases the stop channel given to the search; WithSoftTime receives soft(tc, stm) under a guard that holds for movetime. " +
 			"R4: each of wtime/btime/winc/binc/movetime stores a value derived from args into its own distinct field of tc, and nothing else stores to tc. " +
 			"Not decided: wall-clock behaviour, scheduling latency, what the search does with the soft target.",
 		Assume: []string{
@@ -1150,6 +1176,17 @@ func runC14(c *Ctx) {
 	}
 	w := &c14W{c: c, p: p, fam: c14Family(goFn), goFn: goFn}
 	hard, soft := w.sites()
+	if tp := p.All["time"]; tp != nil && tp.Types != nil {
+		if k, ok := tp.Types.Scope().Lookup("Millisecond").(*types.Const); ok {
+			w.ms, _ = constant.Int64Val(constant.ToInt(k.Val()))
+		}
+	}
+	for _, s := range hard {
+		s.S = w.ms
+	}
+	for _, s := range soft {
+		s.S = 1
+	}
 	if w.tc == nil || w.stmSrc == nil {
 		c.Undec("C14.R3", "wiring", goFn.Pos(), "no consumer of a deadline computed from a local time-control struct and a side to move was found in handleGo: shape not understood")
 		return
@@ -1167,12 +1204,32 @@ func runC14(c *Ctx) {
 		c.Anchor("C14.R1", "chess.White / chess.Black")
 	case !ok3 || m < 1:
 		c.Anchor("C14.R1", "uci.TimeSafetyMargin (positive constant)")
+	case w.ms <= 0:
+		c.Anchor("C14.R1", "time.Millisecond")
 	case w.rolesOK:
 		w.colour, w.margin = [2]int64{wv, bv}, m
 		w.r1r2(hard, soft)
 		w.r3guards(hard, soft)
 	}
 	w.r3(hard, soft)
+}
+
+// readOnly: no function reachable from fn stores to (or leaks the address of) a field of tc's struct type.
+func (w *c14W) readOnly(fn *ssa.Function) bool {
+	n, _ := types.Unalias(w.tc.Type().Underlying().(*types.Pointer).Elem()).(*types.Named)
+	if n == nil || n.Obj().Pkg() == nil {
+		return false
+	}
+	prefix := relPkg(n.Obj().Pkg().Path()) + "." + n.Obj().Name() + "."
+	eff := unionEffects(w.p.closure([]*ssa.Function{fn}, nil))
+	for _, m := range []map[string][]site{eff.FieldWrites, eff.Escapes} {
+		for k := range m {
+			if strings.HasPrefix(k, prefix) {
+				return false
+			}
+		}
+	}
+	return len(eff.Unresolved) == 0
 }
 
 // r4: token ↔ field map of the UCI switch.
@@ -1183,6 +1240,7 @@ func (w *c14W) r4() {
 	fields := map[string]map[int]*ssa.Store{}
 	bad := 0
 	argsOK := map[string]bool{}
+	var zeroStores, tokStores []*ssa.Store
 	for _, fn := range w.fam.fns {
 		// the struct must not escape: only field addressing, loads, stores and capture are allowed
 		for _, b := range fn.Blocks {
@@ -1208,6 +1266,14 @@ func (w *c14W) r4() {
 							c.Undec(rule, "tc-whole-store", x.Pos(), "the time-control struct is overwritten as a whole with a non-zero value: fields can no longer be attributed to UCI tokens")
 							bad++
 						}
+					case *ssa.Call:
+						// pointer receivers / helpers taking &tc: fine when the callee (transitively) never
+						// writes a field of this struct type nor lets such an address escape
+						if callee := x.Call.StaticCallee(); callee != nil && isOwn(callee) && callee.Blocks != nil && w.readOnly(callee) {
+							continue
+						}
+						c.Undec(rule, "tc-escapes", in.Pos(), "the time-control struct's address is passed to %s, which may store to it: stores are not all visible", x.Call.Value.Name())
+						bad++
 					default:
 						c.Undec(rule, "tc-escapes", in.Pos(), "the time-control struct's address is used by %T in %s: stores to it are not all visible", in, fnName(fn))
 						bad++
@@ -1231,6 +1297,10 @@ func (w *c14W) r4() {
 						}
 					}
 				}
+				if k, isZero := constOf(st.Val); len(toks) == 0 && isZero && k == 0 {
+					zeroStores = append(zeroStores, st) // field-wise zeroing; must precede every token store (checked below)
+					continue
+				}
 				if len(toks) != 1 || !strings.Contains(" "+strings.Join(tokens, " ")+" ", " "+toks[0]+" ") {
 					c.Undec(rule, "store:"+w.st.Field(fa.Field).Name(), st.Pos(), "field %s of the time-control struct is stored outside the case of exactly one of the UCI tokens %v (controlling tokens: %v): its meaning cannot be established", w.st.Field(fa.Field).Name(), tokens, toks)
 					bad++
@@ -1240,8 +1310,18 @@ func (w *c14W) r4() {
 					fields[toks[0]] = map[int]*ssa.Store{}
 				}
 				fields[toks[0]][fa.Field] = st
+				tokStores = append(tokStores, st)
 				sl := backSlice(st.Val, sliceOpts{ThroughCalls: true, ThroughLoads: true})
 				argsOK[toks[0]] = len(fn.Params) > 1 && sl[fn.Params[1]]
+			}
+		}
+	}
+	for _, z := range zeroStores {
+		for _, t := range tokStores {
+			if hit, _, _ := c14Reaches(t.Block(), z.Block()); hit || t.Block() == z.Block() || t.Parent() != z.Parent() {
+				c.Undec(rule, "store:"+w.st.Field(z.Addr.(*ssa.FieldAddr).Field).Name(), z.Pos(), "a field of the time-control struct is reset to 0 where a value parsed from a UCI token may already have been stored: what the limit functions see is not established")
+				bad++
+				break
 			}
 		}
 	}
@@ -1329,7 +1409,9 @@ type c14Goal struct {
 	why   string
 }
 
-func (w *c14W) goals(d int, unit int64) []c14Goal {
+// goals for the value handed to the consumer, which counts S units per millisecond
+// (S = time.Millisecond for a timer, 1 for search.WithSoftTime).
+func (w *c14W) goals(d int, S int64) []c14Goal {
 	noOverflow := c14Goal{"no-overflow", func(fs c14Facts, t *c14T) bool {
 		ok := true
 		chk := func(s *c14T) {
@@ -1347,25 +1429,23 @@ func (w *c14W) goals(d int, unit int64) []c14Goal {
 		}
 		hi, ok1 := fs.bound(t, true)
 		lo, ok2 := fs.bound(t, false)
-		_, ok3 := c14MulOK(hi, unit)
-		_, ok4 := c14MulOK(lo, unit)
-		return ok && ok1 && ok2 && ok3 && ok4
+		return ok && ok1 && ok2 && lo > -c14Safe && hi < c14Safe
 	}, nil, "an intermediate value (or the conversion to time.Duration) may leave int64 inside the stated domain: the integer reasoning of the other goals does not transfer to the machine"}
 	if d == 2 {
 		mt := w.mt
-		return []c14Goal{{"equals-movetime", func(fs c14Facts, t *c14T) bool { return c14Eq(t, c14Var(mt)) },
-			func(env map[int]int64, r int64) bool { return r == env[mt] }, "with a fixed move time the limit must equal it"}, noOverflow}
+		return []c14Goal{{"equals-movetime", func(fs c14Facts, t *c14T) bool { return c14Eq(t, c14Bin('*', S, c14Var(mt), nil)) },
+			func(env map[int]int64, r int64) bool { return r == S*env[mt] }, "with a fixed move time the limit must equal it (in the consumer's unit)"}, noOverflow}
 	}
 	r, m := w.clock[d], w.margin
 	return []c14Goal{
 		{"positive", func(fs c14Facts, t *c14T) bool { lo, ok := fs.bound(t, false); return ok && lo >= 1 },
 			func(env map[int]int64, v int64) bool { return v >= 1 }, "a non-positive duration fires the timer at once: the search is aborted before it has a move"},
-		{"le-remaining", func(fs c14Facts, t *c14T) bool { return fs.le(t, int64(r), 0) },
-			func(env map[int]int64, v int64) bool { return v <= env[r] }, "the deadline is later than the remaining time: loss on time"},
+		{"le-remaining", func(fs c14Facts, t *c14T) bool { return fs.le(t, S, int64(r), 0) },
+			func(env map[int]int64, v int64) bool { return v <= S*env[r] }, "the deadline is later than the remaining time: loss on time"},
 		{"keeps-margin", func(fs c14Facts, t *c14T) bool {
 			fs2 := fs.with(c14Fact(c14Var(r), token.GTR, c14K(m)))
-			return fs2.contradictory() || fs2.le(t, int64(r), -m)
-		}, func(env map[int]int64, v int64) bool { return env[r] <= m || v <= env[r]-m }, "more than the safety margin remains but the deadline eats into it"},
+			return fs2.contradictory() || fs2.le(t, S, int64(r), -S*m)
+		}, func(env map[int]int64, v int64) bool { return env[r] <= m || v <= S*(env[r]-m) }, "more than the safety margin remains but the deadline eats into it"},
 		noOverflow,
 	}
 }
@@ -1457,7 +1537,8 @@ func (w *c14W) pres(s *c14Site, d int) ([]c14Facts, string) {
 // prove runs the goals of domain d over all paths of the site's root; returns the paths grouped by precondition.
 func (w *c14W) prove(rule string, s *c14Site, d int, only string) (groups [][]c14Path, pres []c14Facts, n int) {
 	c, root, nd := w.c, s.root, 2*w.st.NumFields()
-	name := fnName(root.fn) + "@" + c14DomName[d]
+	// construct keys name the role, not the function: extracting/renaming helpers must not move obligations
+	name := map[bool]string{true: "soft-target", false: "deadline"}[s.S == 1] + "@" + c14DomName[d]
 	pres, err := w.pres(s, d)
 	type tagged struct {
 		pre c14Facts
@@ -1468,6 +1549,11 @@ func (w *c14W) prove(rule string, s *c14Site, d int, only string) (groups [][]c1
 		paths, e := c14Enumerate(root, w.st, pre)
 		if e != "" {
 			err = e
+		}
+		for i := range paths { // the consumer receives unit · f(tc, stm); a factor applied inside f is already in the term
+			if paths[i].res.kind == 'i' && s.unit != 1 {
+				paths[i].res.t = c14Bin('*', s.unit, paths[i].res.t, nil)
+			}
 		}
 		groups = append(groups, paths)
 		for _, pa := range paths {
@@ -1484,7 +1570,7 @@ func (w *c14W) prove(rule string, s *c14Site, d int, only string) (groups [][]c1
 		c.Undec(rule, name, root.fn.Pos(), "cannot enumerate the paths of %s for domain %s: %s", fnName(root.fn), c14DomName[d], err)
 		return nil, nil, 0
 	}
-	for _, g := range w.goals(d, max(s.unit, 1)) {
+	for _, g := range w.goals(d, s.S) {
 		if only != "" && g.name != only {
 			continue
 		}
@@ -1495,7 +1581,7 @@ func (w *c14W) prove(rule string, s *c14Site, d int, only string) (groups [][]c1
 				continue
 			}
 			failed = true
-			shown := fmt.Sprintf("path %s of %s returns %v", fs[nd:], fnName(root.fn), pa.res.t)
+			shown := fmt.Sprintf("on path %s of %s %s receives %v (expected unit: %d per ms)", fs[nd:], fnName(root.fn), s.name, pa.res.t, s.S)
 			wit := ""
 			if pa.res.kind == 'i' && g.holds != nil {
 				wit = w.witness(d, fs, pa.res.t, g.holds)
@@ -1518,12 +1604,95 @@ func (w *c14W) prove(rule string, s *c14Site, d int, only string) (groups [][]c1
 	return groups, pres, n
 }
 
+// depends searches the grid for two in-domain inputs that differ only in field f and give different deadlines.
+func (w *c14W) depends(d int, groups [][]c14Path, pres []c14Facts, f int) string {
+	nd := 2 * w.st.NumFields()
+	all := map[int]bool{}
+	for gi, paths := range groups {
+		for _, ft := range pres[gi][nd:] {
+			ft.a.vars(all)
+			ft.b.vars(all)
+		}
+		for _, pa := range paths {
+			if pa.res.kind == 'i' {
+				pa.res.t.vars(all)
+			}
+			for _, ft := range pa.facts {
+				ft.a.vars(all)
+				ft.b.vars(all)
+			}
+		}
+	}
+	var vars []int
+	size := len(w.grid(d, f))
+	for v := range all {
+		if v != f {
+			vars = append(vars, v)
+			size *= len(w.grid(d, v))
+		}
+	}
+	sort.Ints(vars)
+	if size > 4_000_000 {
+		return ""
+	}
+	env := map[int]int64{}
+	evalFn := func() (int64, bool) {
+		for gi, paths := range groups {
+			for _, pa := range paths {
+				if pa.res.kind != 'i' {
+					continue
+				}
+				for _, ft := range append(pres[gi][nd:].with(), pa.facts...) {
+					a, ok1 := ft.a.eval(env)
+					b, ok2 := ft.b.eval(env)
+					if !ok1 || !ok2 || !c14Cmp(ft.op, a, b) {
+						goto next
+					}
+				}
+				return pa.res.t.eval(env)
+			next:
+			}
+		}
+		return 0, false
+	}
+	var rec func(i int) string
+	rec = func(i int) string {
+		if i < len(vars) {
+			for _, x := range w.grid(d, vars[i]) {
+				env[vars[i]] = x
+				if s := rec(i + 1); s != "" {
+					return s
+				}
+			}
+			return ""
+		}
+		first, have, at := int64(0), false, int64(0)
+		for _, x := range w.grid(d, f) {
+			env[f] = x
+			r, ok := evalFn()
+			switch {
+			case !ok:
+			case !have:
+				first, have, at = r, true, x
+			case r != first:
+				var parts []string
+				for _, v := range vars {
+					parts = append(parts, fmt.Sprintf("%s=%d", c14Var(v), env[v]))
+				}
+				return fmt.Sprintf("for %s the result is %d with %s=%d but %d with %s=%d", strings.Join(parts, " "), first, c14Var(f), at, r, c14Var(f), x)
+			}
+		}
+		return ""
+	}
+	return rec(0)
+}
+
 func (w *c14W) r1r2(hard, soft []*c14Site) {
 	c := w.c
 	n1, n2 := 0, 0
 	done := map[string]bool{}
 	siteKey := func(s *c14Site) string {
-		k := s.root.key()
+		k := fmt.Sprintf("%d*%s", s.unit, s.root.key())
 		for _, g := range w.guardsOf(s) {
 			k += fmt.Sprintf("|%s=%v%s", g.root.key(), g.want, g.err)
 		}
@@ -1542,8 +1711,10 @@ func (w *c14W) r1r2(hard, soft []*c14Site) {
 			}
 			// R2: fields mentioned (facts and result) after S-drop/S-merge
 			ment := map[int]bool{}
+			simp := make([][]c14Path, len(groups))
 			for gi, paths := range groups {
-				for _, pa := range c14Simplify(pres[gi], paths) {
+				simp[gi] = c14Simplify(pres[gi], paths)
+				for _, pa := range simp[gi] {
 					if pa.res.kind == 'i' {
 						pa.res.t.vars(ment)
 					}
@@ -1557,9 +1728,14 @@ func (w *c14W) r1r2(hard, soft []*c14Site) {
 				if !ment[f] {
 					continue
 				}
-				key := fmt.Sprintf("%s@%s:%s", fnName(s.root.fn), c14DomName[d], w.st.Field(f).Name())
+				key := fmt.Sprintf("deadline@%s:%s", c14DomName[d], w.st.Field(f).Name())
 				if f == w.clock[1-d] || f == w.inc[1-d] {
-					c.Fail("C14.R2", key, s.root.fn.Pos(), "with %s to move the deadline mentions field %s, which carries the opponent's UCI token (%s): the deadline depends on the opponent's clock", c14DomName[d], w.st.Field(f).Name(), map[bool]string{true: "clock", false: "increment"}[f == w.clock[1-d]])
+					what := map[bool]string{true: "clock", false: "increment"}[f == w.clock[1-d]]
+					if wit := w.depends(d, simp, pres, f); wit != "" {
+						c.Fail("C14.R2", key, s.root.fn.Pos(), "with %s to move the deadline depends on field %s, which carries the opponent's UCI token (%s): %s", c14DomName[d], w.st.Field(f).Name(), what, wit)
+					} else {
+						c.Undec("C14.R2", key, s.root.fn.Pos(), "with %s to move the deadline mentions field %s, which carries the opponent's UCI token (%s), but no pair of grid inputs differing only in that field changes the result: dependence not established", c14DomName[d], w.st.Field(f).Name(), what)
+					}
 				} else {
 					c.Ok("C14.R2", key, s.root.fn.Pos(), "field %s mentioned with %s to move is not carried by an opponent's token", w.st.Field(f).Name(), c14DomName[d])
 					n2++
@@ -1575,7 +1751,7 @@ func (w *c14W) r1r2(hard, soft []*c14Site) {
 		}
 	}
 	c.Floor("C14.R1", n1, 11, "bound goals proved (2 colours × 4 + movetime × 2 for the deadline, movetime × 1 for the soft target)")
-	c.Floor("C14.R2", n2, 4, "(colour, mentioned field) pairs")
+	c.Floor("C14.R2", n2, 2, "(colour, mentioned field) pairs (each colour must at least mention its own clock)")
 }
 
 // r3guards: every condition on tc/stm that controls a consumer must hold on the whole domain,
@@ -1621,7 +1797,7 @@ func (w *c14W) r3guards(hard, soft []*c14Site) {
 			check(s, []int{2})
 		}
 	}
-	c.Floor(rule+".guards", n, 3, "time-control guards proved to hold on the domain (2 timers + soft target)")
+	c.Floor(rule+".guards", n, 1, "time-control guards proved to hold on the domain")
 }
 
 func c14Reaches(from, target *ssa.BasicBlock) (hitsTarget, hitsReturn, closes bool) {
@@ -1654,46 +1830,72 @@ func c14Reaches(from, target *ssa.BasicBlock) (hitsTarget, hitsReturn, closes bo
 	return
 }
 
+// flowsFrom: may v carry (part of) the value target? Follows SSA operands, loads, and —
+// for loads of locals of the handleGo family (incl. captured ones) — every value stored to them.
+func (w *c14W) flowsFrom(v, target ssa.Value, seen map[ssa.Value]bool) bool {
+	for x := range backSlice(v, sliceOpts{ThroughLoads: true}) {
+		if x == target {
+			return true
+		}
+		if u, ok := x.(*ssa.UnOp); ok && u.Op == token.MUL && !seen[x] {
+			seen[x] = true
+			if a, ok := w.fam.origin(u.X).(*ssa.Alloc); ok {
+				for _, st := range w.fam.stores(a) {
+					if w.flowsFrom(st.Val, target, seen) {
+						return true
+					}
+				}
+			}
+		}
+	}
+	return false
+}
+
 // r3: units, side-to-move source, and what happens when the timer fires.
 func (w *c14W) r3(hard, soft []*c14Site) {
 	const rule = "C14.R3"
 	c := w.c
-	ms := int64(0)
-	if tp := w.p.All["time"]; tp != nil && tp.Types != nil {
-		if k, ok := tp.Types.Scope().Lookup("Millisecond").(*types.Const); ok {
-			ms, _ = constant.Int64Val(constant.ToInt(k.Val()))
-		}
-	}
-	if ms == 0 {
-		c.Anchor(rule, "time.Millisecond")
-		return
-	}
-	nArg := 0
+	nT, nS := 0, 0
 	for _, s := range append(append([]*c14Site{}, hard...), soft...) {
-		want, unitName := ms, "time.Millisecond (UCI clocks are milliseconds, time.Duration nanoseconds)"
-		if strings.HasPrefix(s.name, "soft") {
-			want, unitName = 1, "1 (search.WithSoftTime takes milliseconds)"
-		}
-		switch {
-		case s.err != "":
+		if s.err != "" {
 			c.Undec(rule, s.name+":argument", s.at.Pos(), "%s", s.err)
-		case s.unit != want:
-			c.Fail(rule, s.name+":argument", s.at.Pos(), "%s receives %d × %s(tc, stm); the factor must be %s: the deadline is scaled by %g", s.name, s.unit, fnName(s.root.fn), unitName, float64(s.unit)/float64(want))
-		default:
-			c.Ok(rule, s.name+":argument", s.at.Pos(), "%s receives %d × %s(%s) with tc the struct filled by the token switch and stm the value loaded once in handleGo", s.name, s.unit, fnName(s.root.fn), strings.Join(s.root.roles, ","))
-			nArg++
+			continue
+		}
+		c.Ok(rule, s.name+":argument", s.at.Pos(), "%s receives %d × %s(%s) with tc the struct filled by the token switch and stm the value loaded once in handleGo (unit and bounds of this value: R1)", s.name, s.unit, fnName(s.root.fn), strings.Join(s.root.roles, ","))
+		if s.S == 1 {
+			nS++
+		} else {
+			nT++
 		}
 	}
-	c.Floor(rule+".sites", nArg, 3, "consumers wired to tc/stm (2 × time.NewTimer, 1 × search.WithSoftTime)")
+	c.Floor(rule+".sites", min(nT, nS), 1, "of each: time.NewTimer and search.WithSoftTime consumers wired to tc/stm")
 
 	// side to move: loaded in handleGo itself (before the search goroutine exists) from d.board.STM
 	okSrc := false
-	if u, ok := w.stmSrc.(*ssa.UnOp); ok && u.Op == token.MUL {
-		if fr, ok := asFieldAddr(u.X); ok && fr.QName() == "board.Board.STM" {
-			if bu, ok := fr.Base.(*ssa.UnOp); ok && bu.Op == token.MUL {
-				if br, ok := asFieldAddr(bu.X); ok && br.QName() == "uci.Driver.board" && u.Parent() == w.goFn {
-					okSrc = true
+	src, where := w.stmSrc, ssa.Instruction(nil)
+	if in, ok := src.(ssa.Instruction); ok {
+		where = in
+	}
+	var base ssa.Value
+	if call, ok := src.(*ssa.Call); ok { // accessor method returning its receiver's STM field
+		if fn := call.Call.StaticCallee(); fn != nil && isOwn(fn) && len(fn.Blocks) == 1 && len(fn.Params) >= 1 && len(call.Call.Args) >= 1 {
+			if ret, ok := fn.Blocks[0].Instrs[len(fn.Blocks[0].Instrs)-1].(*ssa.Return); ok && len(ret.Results) == 1 {
+				if u, ok := ret.Results[0].(*ssa.UnOp); ok && u.Op == token.MUL {
+					if fr, ok := asFieldAddr(u.X); ok && fr.QName() == "board.Board.STM" && fr.Base == ssa.Value(fn.Params[0]) {
+						base = call.Call.Args[0]
+					}
 				}
+			}
+		}
+	} else if u, ok := src.(*ssa.UnOp); ok && u.Op == token.MUL {
+		if fr, ok := asFieldAddr(u.X); ok && fr.QName() == "board.Board.STM" {
+			base = fr.Base
+		}
+	}
+	if base != nil && where != nil && where.Parent() == w.goFn {
+		if bu, ok := w.fam.resolve(base).(*ssa.UnOp); ok && bu.Op == token.MUL {
+			if br, ok := asFieldAddr(bu.X); ok && br.QName() == "uci.Driver.board" {
+				okSrc = true
 			}
 		}
 	}
@@ -1721,15 +1923,17 @@ func (w *c14W) r3(hard, soft []*c14Site) {
 		fn := s.at.Parent()
 		var sel *ssa.Select
 		idx := -1
-		allInstrs(fn, func(in ssa.Instruction) {
-			if se, ok := in.(*ssa.Select); ok {
-				for i, st := range se.States {
-					if st.Dir == types.RecvOnly && tv != nil && backSlice(st.Chan, sliceOpts{ThroughLoads: true})[tv] {
-						sel, idx = se, i
+		for _, f := range w.fam.fns { // the select may live in an enclosing closure; the channel may travel through captured locals
+			allInstrs(f, func(in ssa.Instruction) {
+				if se, ok := in.(*ssa.Select); ok {
+					for i, st := range se.States {
+						if st.Dir == types.RecvOnly && tv != nil && w.flowsFrom(st.Chan, tv, map[ssa.Value]bool{}) {
+							sel, idx, fn = se, i, f
+						}
 					}
 				}
-			}
-		})
+			})
+		}
 		key := s.name + ":fires"
 		if sel == nil {
 			c.Undec(rule, key, s.at.Pos(), "the channel of this timer is not a receive case of a select in %s: how the deadline interrupts the search is not understood", fnName(fn))
@@ -1776,7 +1980,7 @@ func (w *c14W) r3(hard, soft []*c14Site) {
 			nFire++
 		}
 	}
-	c.Floor(rule+".fires", nFire, 2, "timers whose firing stops the search")
+	c.Floor(rule+".fires", nFire, 1, "timers whose firing stops the search")
 }
 
 func init() {
@@ -1784,40 +1988,40 @@ func init() {
 	addMutants(
 		Mutant{Name: "C14.R1-clamp-upper-without-margin", Prop: "C14", File: "uci/uci.go", Quick: true,
 			Old: hl, New: "return Clamp(4*tc.softLimit(stm), TimeSafetyMargin, timeLeft)",
-			Expect: "C14.R1/uci.(timeControl).hardLimit@White#keeps-margin"},
+			Expect: "C14.R1/deadline@White#keeps-margin"},
 		Mutant{Name: "C14.R1-margin-test-off-by-one", Prop: "C14", File: "uci/uci.go", Quick: true,
 			Old: "if timeLeft <= TimeSafetyMargin {", New: "if timeLeft < TimeSafetyMargin {",
-			Expect: "C14.R1/uci.(timeControl).hardLimit@White#positive"},
+			Expect: "C14.R1/deadline@White#positive"},
 		Mutant{Name: "C14.R1-clamp-bounds-swapped", Prop: "C14", File: "uci/uci.go",
 			Old: hl, New: "return Clamp(4*tc.softLimit(stm), timeLeft-TimeSafetyMargin, TimeSafetyMargin)",
-			Expect: "C14.R1/uci.(timeControl).hardLimit@Black#keeps-margin"},
+			Expect: "C14.R1/deadline@Black#keeps-margin"},
 		Mutant{Name: "C14.R1-margin-added-not-subtracted", Prop: "C14", File: "uci/uci.go",
 			Old: hl, New: "return Clamp(4*tc.softLimit(stm), TimeSafetyMargin, timeLeft+TimeSafetyMargin)",
-			Expect: "C14.R1/uci.(timeControl).hardLimit@White#le-remaining"},
+			Expect: "C14.R1/deadline@White#le-remaining"},
 		Mutant{Name: "C14.R1-clamp-rewritten-max-of-min", Prop: "C14", File: "chess/math.go",
 			Old: "return min(b, max(x, a))", New: "return max(a, min(x, b))",
-			Expect: "C14.R1/uci.(timeControl).hardLimit@White#keeps-margin"},
+			Expect: "C14.R1/deadline@White#keeps-margin"},
 		Mutant{Name: "C14.R1-soft-movetime-halved", Prop: "C14", File: "uci/uci.go",
 			Old: "func (tc timeControl) softLimit(stm Color) int64 {\n\tif tc.mtime > 0 {\n\t\treturn tc.mtime\n", New: "func (tc timeControl) softLimit(stm Color) int64 {\n\tif tc.mtime > 0 {\n\t\treturn tc.mtime / 2\n",
-			Expect: "C14.R1/uci.(timeControl).softLimit@movetime#equals-movetime"},
+			Expect: "C14.R1/soft-target@movetime#equals-movetime"},
 		Mutant{Name: "C14.R1-rearm-with-soft-limit", Prop: "C14", File: "uci/uci.go",
 			Old: "if ponder && tc.timedMode(stm) {\n\t\t\t\t\t\thardTimer = time.NewTimer(time.Duration(tc.hardLimit(stm)) * time.Millisecond)", New: "if ponder && tc.timedMode(stm) {\n\t\t\t\t\t\thardTimer = time.NewTimer(time.Duration(tc.softLimit(stm)) * time.Millisecond)",
-			Expect: "C14.R1/uci.(timeControl).softLimit@White#le-remaining"},
+			Expect: "C14.R1/deadline@White#le-remaining"},
 		Mutant{Name: "C14.R1-wtime-btime-tokens-swapped", Prop: "C14", File: "uci/uci.go",
 			Old: "case \"wtime\":\n\t\t\ttc.wtime = parseInt64(args[i+1])\n\t\tcase \"btime\":\n\t\t\ttc.btime = parseInt64(args[i+1])", New: "case \"wtime\":\n\t\t\ttc.btime = parseInt64(args[i+1])\n\t\tcase \"btime\":\n\t\t\ttc.wtime = parseInt64(args[i+1])",
-			Expect: "C14.R1/uci.(timeControl).hardLimit@White#le-remaining"},
+			Expect: "C14.R1/deadline@White#le-remaining"},
 		Mutant{Name: "C14.R2-white-soft-peeks-at-black-increment", Prop: "C14", File: "uci/uci.go", Quick: true,
 			Old: "return tc.wtime/PredictedMoves + tc.winc/2", New: "return tc.wtime/PredictedMoves + tc.binc/2",
-			Expect: "C14.R2/uci.(timeControl).hardLimit@White:binc"},
+			Expect: "C14.R2/deadline@White:binc"},
 		Mutant{Name: "C14.R2-winc-binc-tokens-swapped", Prop: "C14", File: "uci/uci.go",
 			Old: "case \"winc\":\n\t\t\ttc.winc = parseInt64(args[i+1])\n\t\tcase \"binc\":\n\t\t\ttc.binc = parseInt64(args[i+1])", New: "case \"winc\":\n\t\t\ttc.binc = parseInt64(args[i+1])\n\t\tcase \"binc\":\n\t\t\ttc.winc = parseInt64(args[i+1])",
-			Expect: "C14.R2/uci.(timeControl).hardLimit@"},
+			Expect: "C14.R2/deadline@"},
 		Mutant{Name: "C14.R2-hard-limit-caps-by-opponent-clock", Prop: "C14", File: "uci/uci.go",
 			Old: "\tif stm == White && tc.wtime > 0 {\n\t\ttimeLeft = tc.wtime\n\t}", New: "\tif stm == White && tc.wtime > 0 {\n\t\ttimeLeft = min(tc.wtime, max(tc.btime, 1))\n\t}",
-			Expect: "C14.R2/uci.(timeControl).hardLimit@White:btime"},
-		Mutant{Name: "C14.R3-timer-in-seconds", Prop: "C14", File: "uci/uci.go", Quick: true,
+			Expect: "C14.R2/deadline@White:btime"},
+		Mutant{Name: "C14.R1-timer-in-seconds", Prop: "C14", File: "uci/uci.go", Quick: true,
 			Old: "if !ponder && tc.timedMode(stm) {\n\t\t\thardTimer = time.NewTimer(time.Duration(tc.hardLimit(stm)) * time.Millisecond)", New: "if !ponder && tc.timedMode(stm) {\n\t\t\thardTimer = time.NewTimer(time.Duration(tc.hardLimit(stm)) * time.Second)",
-			Expect: "C14.R3/timer#0:argument"},
+			Expect: "C14.R1/deadline@White#le-remaining"},
 		Mutant{Name: "C14.R3-timer-case-keeps-waiting", Prop: "C14", File: "uci/uci.go",
 			Old: "case <-hardC:\n\t\t\t\treturn", New: "case <-hardC:\n\t\t\t\thardC = nil",
 			Expect: "C14.R3/timer#0:fires"},
